@@ -110,3 +110,57 @@ Example compass_model_prim_empty_board :
   solve_compass_model_prim [[0; 3]; [0; 0; -1; -1; -1; -1]]%Z = Err IndexError /\
   solve_compass_model [[0; 3]; [0; 0; -1; -1; -1; -1]]%Z = Err ValueError.
 Proof. vm_compute. split; reflexivity. Qed.
+
+(* the hypothesis of compass_exact_prim holds exactly for the problems with whole 6-tuples, at least one compass and
+   every compass on a cell of the board, as on the auxiliary route (otherwise the Python raises) *)
+Theorem compass_model_prim_defined h w cps :
+  (exists st, solve_compass_model_prim [[Z.of_nat h; Z.of_nat w]; cps] = Ok st) <->
+  (Nat.modulo (length cps) 6 = 0 /\ 0 < Nat.div (length cps) 6 /\
+   forall i, i < Nat.div (length cps) 6 ->
+             (0 <= cp_field cps i 0 < Z.of_nat h)%Z /\ (0 <= cp_field cps i 1 < Z.of_nat w)%Z).
+Proof.
+  unfold solve_compass_model_prim. destruct (dims2c h w [cps]) as [-> ->].
+  change (sec [[Z.of_nat h; Z.of_nat w]; cps] 1) with cps.
+  set (k := Nat.div (length cps) 6).
+  destruct (Nat.eqb_spec (Nat.modulo (length cps) 6) 0) as [Em|Nm]; cbn [negb];
+    [|split; [intros [st Hst]; discriminate|intros [H _]; contradiction]].
+  assert (Hcoord : forall P : Prop,
+            (P <-> (0 < k /\ forall i, i < k ->
+                      (0 <= cp_field cps i 0 < Z.of_nat h)%Z /\ (0 <= cp_field cps i 1 < Z.of_nat w)%Z)) ->
+            (P <-> (Nat.modulo (length cps) 6 = 0 /\ 0 < k /\ forall i, i < k ->
+                      (0 <= cp_field cps i 0 < Z.of_nat h)%Z /\ (0 <= cp_field cps i 1 < Z.of_nat w)%Z))) by tauto.
+  apply Hcoord. clear Hcoord.
+  destruct (forallb (cp_nonneg cps) (seq 0 k)) eqn:Hnn; cbn [negb].
+  2:{ split; [intros [st Hst]; discriminate|]. intros [_ H]. exfalso.
+      assert (forallb (cp_nonneg cps) (seq 0 k) = true); [|congruence].
+      apply forallb_forall. intros i Hi. apply in_seq in Hi. destruct (H i ltac:(lia)) as [H0 H1].
+      unfold cp_nonneg. apply andb_true_iff. split; apply Z.leb_le; lia. }
+  assert (Hn : forall i, i < k -> (0 <= cp_field cps i 0)%Z /\ (0 <= cp_field cps i 1)%Z).
+  { rewrite forallb_forall in Hnn. intros i Hi. specialize (Hnn i ltac:(apply in_seq; lia)).
+    unfold cp_nonneg in Hnn. apply andb_true_iff in Hnn. destruct Hnn as [N0 N1].
+    apply Z.leb_le in N0. apply Z.leb_le in N1. lia. }
+  unfold int_array. destruct (Z.ltb_spec (Z.of_nat k - 1) 0) as [Hk|Hk].
+  { split; [intros [st Hst]; discriminate|lia]. }
+  rewrite DivisionEval.int_vars_spec. rewrite cp_roots_args, division_grid_roots.
+  set (st0 := add_decls empty_state (repeat (DInt 0 (Z.of_nat k - 1)) (h * w))).
+  set (data := map (fun i => IVar (next_id empty_state + i) 0 (Z.of_nat k - 1)) (seq 0 (h * w))).
+  set (rs := map (fun i => GCell (cp_field cps i 0) (cp_field cps i 1)) (seq 0 k)).
+  destruct (forallb (cp_in_board h w cps) (seq 0 k)) eqn:Hib.
+  - destruct (cp_checks h w cps k Hnn Hib) as [_ Hinside].
+    assert (Hall : forall i, i < k ->
+              (0 <= cp_field cps i 0 < Z.of_nat h)%Z /\ (0 <= cp_field cps i 1 < Z.of_nat w)%Z).
+    { intros i Hi. destruct (Hn i Hi). destruct (Hinside i Hi) as [Hy Hx]. unfold zn in *. lia. }
+    split; [intros _; split; [lia|exact Hall]|]. intros _.
+    destruct (post_division_prim_defined st0 (SArr data) k (grid_graph h w) (map (grid_root_vertex w) rs) false)
+      as [st1 Hst1].
+    + simpl. unfold data. rewrite map_length, seq_length. reflexivity.
+    + unfold rs. rewrite map_map, Forall_map. apply Forall_forall. intros i Hi. apply in_seq in Hi.
+      destruct (Hinside i ltac:(lia)) as [Hy Hx]. destruct (Hn i ltac:(lia)) as [H0 H1].
+      pose proof (grid_cell_lt h w _ _ Hy Hx) as Hlt. unfold zn in *. simpl. nia.
+    + rewrite Hst1. eexists; reflexivity.
+  - split.
+    + intros [st Hst]. destruct (post_division _ _ _ _ _ _ _); discriminate.
+    + intros [_ H]. exfalso. assert (forallb (cp_in_board h w cps) (seq 0 k) = true); [|congruence].
+      apply forallb_forall. intros i Hi. apply in_seq in Hi. destruct (H i ltac:(lia)) as [H0 H1].
+      unfold cp_in_board. apply andb_true_iff. split; apply Z.ltb_lt; lia.
+Qed.
